@@ -458,7 +458,12 @@ def parse_trace(line, nout):
 def _q(rng, lo, hi):
     """A rational number of frames in [lo, hi], often not an integer."""
     den = rng.choice([1, 1, 2, 3, 4, 7])
-    return F(rng.randint(int(lo * den), int(hi * den)), den)
+    q = F(rng.randint(int(lo * den), int(hi * den)), den)
+    if rng.random() < 0.08:
+        # above a (whole or fractional) frame position by far less than binary64 resolution: the exact ceiling and a
+        # ceiling taken after conversion to float differ by one sample (seed C03_6)
+        q += F(1, 10 ** 24)
+    return q
 
 
 def gen_timed_blocks(rng, sr, span, kind, feat):
